@@ -1,6 +1,6 @@
 SPECIFICATION Spec
 CONSTANTS
- Threads = {1,2,3,4}
+ Threads = {1,2,3}
  Main = 1
  MaxNodes = 3
  MaxOps = 2
@@ -8,10 +8,6 @@ CONSTANTS
  FixDetector = TRUE
  FixNifty = TRUE
  AtomicAdopt = TRUE
- RefreshExpected = TRUE
-INVARIANT NoShare
-INVARIANT OwnedInUse
-INVARIANT Reclaimed
+ RefreshExpected = FALSE
 INVARIANT ListComplete
-INVARIANT FreedAtExit
 CHECK_DEADLOCK FALSE
